@@ -49,7 +49,8 @@ def concretize(case, variant):
             claims[e["n"]] = conc_val(e["v"], E, flt)
         if e["o"]["ess"] != "none":
             opts[e["n"]] = conc_opt(e["o"], E, flt)
-    return E, case["lw"] // 2, claims, opts, use_clock
+    # the float spelling covers `now` as well: the same instant given as 1700000000.0 (time.time(), datetime.timestamp())
+    return (float(E) if flt else E), case["lw"] // 2, claims, opts, use_clock
 
 
 CLASS = {"MissingClaimError": "missing", "InvalidClaimError": "invalid", "ExpiredTokenError": "expired",
